@@ -43,7 +43,29 @@ def v2p_intrinsic(ev, args, kwargs):
     for r in required:
         if r not in b:
             raise AnalysisError(f"v2p call lacks argument {r}")
-    return V2P(as_sym(b["func_of_t_v"]), as_sym(b["p_of_t_v"]), as_sym(b["desired_pressures"]))
+    return V2P(as_sym(b["func_of_t_v"]), *common_affine_image(as_sym(b["p_of_t_v"]), as_sym(b["desired_pressures"])))
+
+
+def common_affine_image(p1, p2):
+    """qha's v2p interpolates f along each isotherm at the abscissae p_of_t_v and evaluates at desired_pressures (four-point Lagrange on the nearest
+    nodes): the result is unchanged when BOTH are mapped by one increasing affine map a * p + c (a > 0, c the same scalar for every element).
+    Such a pair is rewritten to its pre-image (PTV / AU, PDES / AU); anything else is left as it is (and then differs from the reference)."""
+    # one element of a grid (p_array[0]) is a scalar, not the grid
+    elems = {x: sp.Dummy(f"elem{i}", real=True) for i, x in enumerate(sorted((x_ for x_ in (p1.atoms(sp.Function) | p2.atoms(sp.Function) | p1.atoms(sp.Indexed) | p2.atoms(sp.Indexed))
+                                                                                             if type(x_).__name__ in ("Indexed", "GRIDAT")), key=str))}
+    e1, e2 = sp.expand(p1.xreplace(elems)), sp.expand(p2.xreplace(elems))
+    if not (e1.has(PTV) and e2.has(PDES)):
+        return p1, p2
+    a1, a2 = e1.coeff(PTV, 1), e2.coeff(PDES, 1)
+    c1, c2 = sp.expand(e1 - a1 * PTV), sp.expand(e2 - a2 * PDES)
+    if c1.has(PTV) or c2.has(PDES) or a1.has(PTV, PDES) or a2.has(PTV, PDES):
+        # a shift that is itself the whole vector of pressures (PDES, not one element of it) is an elementwise change, not a common shift
+        return p1, p2
+    if sp.simplify(a1 - a2) != 0 or sp.simplify(c1 - c2) != 0:
+        return p1, p2
+    if not (a1 * AU).is_positive:
+        return p1, p2
+    return PTV / AU, PDES / AU
 
 
 def setup(ctx, model):
@@ -177,12 +199,17 @@ def r_range(ctx, model):
     I = sp.Integer
     table = ArrV(0, (2, 3), cells={(0, 0): I(-5), (0, 1): I(40), (0, 2): I(100), (1, 0): I(2), (1, 1): I(50), (1, 2): I(120)})
     bad = []
-    for top, must_raise in ((60, False), (99, False), (101, True), (110, True), (119, True), (121, True), (500, True)):
-        want = ArrV(0, (4,), cells={(0,): I(0), (1,): I(top) / 3, (2,): 2 * I(top) / 3, (3,): I(top)})
-        # what is written is every pressure of the grid; the sampled grid (every 2nd pressure here, not the top one) is coarser
-        sample = ArrV(0, (2,), cells={(0,): I(0), (1,): 2 * I(top) / 3})
+    # each grid written upwards (DELTA_P > 0) and downwards (P_MIN at the top, DELTA_P < 0: qha.tools.arange(P_MIN, NTV, DELTA_P) takes either sign)
+    for top, must_raise, down in [(t_, m_, d_) for d_ in (False, True) for t_, m_ in ((60, False), (99, False), (101, True), (110, True), (119, True), (121, True), (500, True))]:
+        grid = [I(0), I(top) / 3, 2 * I(top) / 3, I(top)]
+        smp = [I(0), 2 * I(top) / 3]
+        if down:
+            grid, smp = grid[::-1], [I(top), I(top) / 3]
+        want = ArrV(0, (4,), cells={(i_,): g_ for i_, g_ in enumerate(grid)})
+        # what is written is every pressure of the grid; the sampled grid (every 2nd pressure here) is coarser
+        sample = ArrV(0, (2,), cells={(i_,): g_ for i_, g_ in enumerate(smp)})
         obj = Obj(QHACALC, {"p_tv_gpa": table, "desired_pressures_gpa": want, "pressure_sample_array": sample, "desired_pressures": want,
-                            "settings": DictV({"DELTA_P": I(1), "DELTA_P_SAMPLE": I(2), "high_verbosity": False, "qha_output": "out"})})
+                            "settings": DictV({"DELTA_P": I(-1) if down else I(1), "DELTA_P_SAMPLE": I(-2) if down else I(2), "high_verbosity": False, "qha_output": "out"})})
         ev = Ev(model, {}, {}, ctx=ctx)
         # the check as the loader calls it: arguments of the call site are evaluated on the scenario calculator
         sites = [c for c in ast.walk(f) if isinstance(c, ast.Call) and isinstance(c.func, ast.Attribute) and c.func.attr == "desired_pressure_status"]
@@ -204,11 +231,11 @@ def r_range(ctx, model):
         except RaisedV as e:
             outcome = e.exc_name
         if must_raise and outcome != "ValueError":
-            bad.append(f"grid up to {top} GPa (reachable at every T: 100): {'accepted' if outcome is None else 'raises ' + outcome}, want ValueError")
+            bad.append(f"grid {'down from' if down else 'up to'} {top} GPa (reachable at every T: 100): {'accepted' if outcome is None else 'raises ' + outcome}, want ValueError")
         if not must_raise and outcome is not None:
-            bad.append(f"grid up to {top} GPa (reachable at every T: 100): raises {outcome}, want acceptance")
-    ctx.check(not bad, "ValueError iff the largest requested pressure exceeds the pressure reachable at EVERY temperature (7 scenario grids)", model.where(dref, d),
-              expected="raise ValueError iff max(requested) > min over T of P(T, V_smallest)", found="; ".join(bad[:3]) or "7 scenarios as required",
+            bad.append(f"grid {'down from' if down else 'up to'} {top} GPa (reachable at every T: 100): raises {outcome}, want acceptance")
+    ctx.check(not bad, "ValueError iff the largest requested pressure exceeds the pressure reachable at EVERY temperature (14 scenario grids, written upwards and downwards)", model.where(dref, d),
+              expected="raise ValueError iff max(requested) > min over T of P(T, V_smallest)", found="; ".join(bad[:3]) or "14 scenarios as required",
               explanation="the range check does not refuse (with ValueError, unconditionally on flags) exactly the pressure grids that extend above "
                           "the pressure reachable at every temperature", key="desired_pressure_status.guard")
     # nobody catches it on the way to the CLI
